@@ -5,7 +5,8 @@ from C11 import msg, pline, sline
 ID = "C13"
 CRATE = "hmsg"
 RUN_MODULE = "C13.Run"
-RULE = ("exhaustive: every header field code 0 and 10..255 x 8 variant values (u, s, y, t, o, g, as, (su)); every non-empty set of "
+RULE = ("exhaustive: every header field code 0 and 10..255 x 8 variant values (u, s, y, t, o, g, as, (su)), plus 1200 unknown fields "
+        "with values of random nested types (arrays, structures, dict entries, variants, invalid leaves); every non-empty set of "
         "the 5 unknown flag bits combined with known ones; every message type 0 and 5..255; each both through "
         "Message::from_bytes and (quick: every code once, every other type, 30 flag sets; thorough: all) on a live p2p connection as "
         "the middle message of the stream normal, odd, normal (then EOF), observed on a MessageStream; plus control messages with "
@@ -76,6 +77,21 @@ def gen(rng, tier):
             m = msg(e, ty, 0, serial=2, fields=BASE, body=b"")
             yield pline(m)
             if tier != "quick" or (e == "l" and ty % 2 == 1) or ty % 16 == 5:
+                yield sline([n1, m, n3])
+        # unknown fields with values of random types (nested containers, variants, dict entries, invalid leaves)
+        TB = [(1, ("o",), b"/a/b"), (2, ("s",), b"org.a.B"), (3, ("s",), b"Ping")]
+        for i in range(600 if tier == "quick" else 20000):
+            t = lib.rand_type(rng)
+            v = lib.rand_value(rng, t)
+            code = rng.choice([10, 11, 42, 127, 128, 200, 255, rng.randint(10, 255)])
+            fields = list(TB)
+            fields.insert(rng.randint(0, 3), (code, t, v))
+            if rng.random() < 0.3:
+                t2 = lib.rand_type(rng)
+                fields.append((rng.randint(10, 255), t2, lib.rand_value(rng, t2)))
+            m = lib.msg_any(e, rng.choice([1, 4]), rng.choice([0, 0, 8, 0x31]), 2, fields)
+            yield pline(m)
+            if i % 10 == 0:
                 yield sline([n1, m, n3])
         # an unknown type with a body, an unknown field next to a body
         yield sline([n1, msg(e, 9, 0, serial=2, fields=BASE + [(8, b"g", b"u")], body=lib.u32(e, 5)), n3])
